@@ -71,7 +71,11 @@ impl HEST {
 
         // The HEST keeps a count of how many structures are
         // contained within it.
-        self.checksum.add(1);
+        // source count (32-bit, emitted from structures.len()); this runs before the push
+        let old_count = self.structures.len() as u32;
+        let new_count = old_count + 1;
+        self.checksum.delete(old_count.as_bytes());
+        self.checksum.append(new_count.as_bytes());
         self.header.checksum = self.checksum.value();
     }
 
